@@ -413,7 +413,8 @@ CLAIM = {
             "catalog operators and bootstrap, that temp catalogs are fresh per session and the system catalog read-only, and that segment "
             "publication is atomic, and that each catalog operator transitively reaches only the mutators of its own statement kind (a CREATE "
             "never drops, an INSERT never touches the catalog). These are isolation-by-construction facts; the sequential meaning of "
-            "statement histories is not decided. Plus the chunked-append cursor pairing in the column collection: a loop that subtracts the amount it hands to a copy routine from its remaining count advances the source offset by the same amount (no row stored twice, none lost). Plus: every DataTable::append_batch in INSERT / CREATE TABLE AS is paired with `count += <same batch>.num_rows()` and the reported value is that counter. And: in the CREATE TABLE AS operator no branch on the input batch decides whether the table creation is reached.",
+            "statement histories is not decided. Plus the chunked-append cursor pairing in the column collection: a loop that subtracts the amount it hands to a copy routine from its remaining count advances the source offset by the same amount (no row stored twice, none lost). Plus: every DataTable::append_batch in INSERT / CREATE TABLE AS is paired with `count += <same batch>.num_rows()` and the reported value is that counter. And: in the CREATE TABLE AS operator no branch on the input batch decides whether the table creation is reached."
+            " Plus INSERTCOLS: the INSERT column list is mapped or refused, never dropped.",
     "note": "trusted: rustc MIR; class-hierarchy call graph; allow-list of mutator callers in rules/c14.py",
     "technique": "static analysis: who-may-call (call graph) + MIR must-pass-through / provenance (rustc_private driver)",
 }
